@@ -166,6 +166,12 @@ fn features() -> Vec<Feature> {
             let n = d.ns("");
             n.cedar.push("entity Tagged in [Group] { x: Long } tags Set<String>;".into());
             n.ents.insert("Tagged".into(), json!({"memberOfTypes": ["Group"], "shape": {"type": "Record", "attributes": {"x": {"type": "Long"}}}, "tags": {"type": "Set", "element": {"type": "String"}}}));
+            // tags on an entity type WITHOUT attributes, with and without parents, entity-typed tags
+            // (after hand mutant c09_tags_only_with_shape)
+            n.cedar.push("entity Bare tags Long;".into());
+            n.ents.insert("Bare".into(), json!({"tags": {"type": "Long"}}));
+            n.cedar.push("entity BareIn in [Group] tags User;".into());
+            n.ents.insert("BareIn".into(), json!({"memberOfTypes": ["Group"], "tags": {"type": "Entity", "name": "User"}}));
         }),
         ("enum-entity", |d| {
             let n = d.ns("");
